@@ -33,6 +33,7 @@ type PropCfg struct {
 		Note string `json:"note"`
 	} `json:"bounded"`
 	Sweeps []string `json:"sweeps"` // extra checks: "globals"
+	OnlyKinds []string `json:"only_kinds"` // restrict the claimed obligations to these kinds (e.g. frame)
 }
 
 type finding struct {
@@ -238,8 +239,22 @@ func main() {
 		return false
 	}
 	skipped := 0
+	kindOK := func(o *vc.Obligation) bool {
+		if len(cfg.OnlyKinds) == 0 || o.Canary {
+			return true
+		}
+		for _, k := range cfg.OnlyKinds {
+			if o.Kind == k {
+				return true
+			}
+		}
+		return false
+	}
 	for _, v := range vcs {
 		for _, o := range v.Obls {
+			if !kindOK(o) {
+				continue
+			}
 			if *tier == "quick" && thoroughOnly(o.Name) {
 				skipped++
 				continue
